@@ -275,6 +275,20 @@ static void gen_c02_ecdsa(const std::string& tier, std::vector<Work>& W) {
             }, "hashtypes " + c.label});
         }
     }
+    // (1a) extreme amounts of the spent output (BIP143 commits to it): 0, 1 and 21e14 satoshi - in every tier
+    for (int64_t amt : {int64_t(0), int64_t(1), int64_t(2100000000000000LL)}) for (SigVer sv : {SigVer::BASE, SigVer::WITNESS_V0}) for (auto sh : std::vector<std::array<int, 3>>{{1, 1, 0}, {2, 2, 1}}) {
+        Ctx c = make_ctx(sh[0], sh[1], sh[2], amt, sv);
+        W.push_back({[=](Violations& V, Stats2& S) {
+            auto T3 = ecdsa_templates();
+            for (size_t ti : {size_t(0), size_t(1), size_t(8)}) for (uint8_t ht : std::vector<uint8_t>{1, 0x83}) for (uint32_t fl : std::vector<uint32_t>{0u, F_STANDARD}) {
+                if (ti >= T3.size()) continue;
+                Inst I = instantiate(T3[ti], c, keys, {ht});
+                compare_explicit(c, I.script, I.stack, fl, T3[ti].name + " amount=" + std::to_string(amt) + " hashtype=" + std::to_string(ht), "extreme-amount:" + T3[ti].name, V, S);
+                Ctx c2 = c; c2.amount = amt == 0 ? 1 : amt - 1; Inst J2 = instantiate(T3[ti], c2, keys, {ht});
+                compare_explicit(c, I.script, J2.stack, fl, T3[ti].name + " amount=" + std::to_string(amt) + " signed for a neighbouring amount", "extreme-amount:other-amount:" + T3[ti].name, V, S);
+            }
+        }, "extreme amounts " + c.label});
+    }
     // (1b) templates with two signatures: every ORDERED pair of hash types (each signature has its own digest; what one check computed -
     //      BIP143's hashPrevouts / hashSequence / hashOutputs are blank or different for ANYONECANPAY, NONE, SINGLE - must not reach the next),
     //      one-input and multi-input transactions
@@ -645,6 +659,22 @@ static void gen_c11(const std::string& tier, std::vector<Work>& W) {
                 compare_explicit(c, I.script, st, fl & ~(F_STRICTENC | F_DERSIG | F_LOW_S | F_NULLFAIL), T[ti].name + " listed signature for an unlisted key, list=" + ldesc, "mock:listed-sig-unlisted-key", V, S, L, true, false, "c11");
             }
         }, "mock list"});
+    }
+    // the EMPTY signature as the listed one (--pretend-valid=0x:P): the pair is honoured by every signature opcode like any other, on the
+    // stack and pushed by the script (OP_0); an unlisted key sees an ordinary empty signature
+    for (SigVer sv : {SigVer::BASE, SigVer::WITNESS_V0}) for (bool with_tx : {true, false}) {
+        W.push_back({[=](Violations& V, Stats2& S) {
+            std::vector<gen::Key> keys = {gen::make_key(1), gen::make_key(2), gen::make_key(3)};
+            Ctx c = make_ctx(2, 2, 1, 1000, sv);
+            std::vector<std::vector<std::pair<bytes, bytes>>> Ls = {{{bytes{}, keys[0].pub}}, {{bytes{}, keys[0].pub}, {unhex("bb02bb"), keys[1].pub}}, {{unhex("aa01"), keys[1].pub}, {bytes{}, keys[0].pub}}};
+            for (auto& L : Ls) for (uint32_t fl : {0u, F_STANDARD}) {
+                std::string ldesc = "list of " + std::to_string(L.size()) + " with the empty signature for key 1";
+                for (uint8_t opc : {uint8_t(0xac), uint8_t(0xad)}) { bytes sc = C({P(keys[0].pub), O(opc)}); if (opc == 0xad) sc.push_back(0x51); compare_explicit(c, sc, {bytes{}}, fl, std::string("empty listed signature in ") + (opc == 0xac ? "CHECKSIG" : "CHECKSIGVERIFY") + ", " + ldesc, "mock:empty-signature", V, S, L, with_tx, false, "c11"); }
+                { bytes sc = C({O(0x00), P(keys[0].pub), O(0xac)}); compare_explicit(c, sc, {}, fl, "empty listed signature pushed by the script (OP_0), CHECKSIG, " + ldesc, "mock:empty-signature-in-script", V, S, L, with_tx, false, "c11"); }
+                { bytes sc = C({O(0x51), P(keys[0].pub), O(0x51), O(0xae)}); compare_explicit(c, sc, {{}, bytes{}}, fl, "empty listed signature in 1-of-1 multisig, " + ldesc, "mock:empty-signature-multisig", V, S, L, with_tx, false, "c11"); }
+                { bytes sc = C({P(keys[2].pub), O(0xac)}); compare_explicit(c, sc, {bytes{}}, fl, "empty signature for an unlisted key, " + ldesc, "mock:empty-signature-unlisted-key", V, S, L, with_tx, false, "c11"); }
+            }
+        }, "empty listed signature"});
     }
     // short values whose concatenations coincide (aa||bbcc == aabb||cc): every list of one or two pairs over 3 signatures x 3 keys of different
     // lengths, and against each list every (signature, key) of the alphabet in CHECKSIG and in a 1-of-1 multisig, without encoding rules
